@@ -32,7 +32,13 @@
 //          gradient (per subset and in total; see the comments at the comparisons for what is comparable for TOF data),
 //          (g) textbook expressions in double precision on explicit rows, (h) cache-size independence, (i) setter histories against fresh
 //          objects (bitwise), (j) value differences.  Known classes of defects are recognised and reported with a stable key.
-// Optional 5th argument (development): "hist" = family 1 only, "lmobj" = family 2 only.  C14_ALL_FAILS=1 prints every ORACLE-FAIL line.
+//          (k) re-use of cache files: a second object with recompute_cache = false on the same cache path, given another stream, reproduces the
+//          results of the object that wrote the files bitwise; with use_subset_sensitivities = false: subset sensitivity = total / number of subsets.
+// FAMILY 3 (namespace nrm): pre- and post-normalisation in LmToProjData (ops cfg norm / cfg cc / cfg eff / stream with efficiencies / runw).
+// FAMILY 4 (namespace evk): LOR-only events, BlocksOnCylindrical scanners, real SAFIR and ECAT8 32-bit list-mode files written from the
+//          event list and read through the library's readers (ops cfg tpl / stream / run).  See the comments at the namespaces.
+// Optional 5th argument (development): "hist" = family 1 only, "lmobj" = family 2, "norm" = family 3, "events" = family 4.
+// C14_ALL_FAILS=1 prints every ORACLE-FAIL line; C14_DEBUG=1 keeps stderr/stdout of the library.
 #include "stir_fixtures.h"
 #include "common.h"
 #include "stir/listmode/LmToProjData.h"
@@ -2087,6 +2093,159 @@ run_family(vh::Rng& rng, bool thorough)
         g_stat["lmo_cache_size_pairs"]++;
       }
 
+      // ---- cache files of an earlier object are used again: a second object with recompute_cache = false on the same cache
+      // path, given ANOTHER stream and no frame definitions / num_events_to_use (all ignored: the events are those of the cache
+      // files), must give the results of the object that wrote the files — bitwise, both read their events from the same files;
+      // in a quarter of the cases the second object uses use_subset_sensitivities = false (subset sensitivity = total / number of
+      // subsets; refused by set_up for unbalanced subsets)
+      if (s.cache != 0 && lm.ok)
+        {
+          Results second;
+          std::string herr;
+          const bool subsens = ci % 4 != 1;
+          try
+            {
+              shared_ptr<SynLM> lm1(new SynLM(g.pdi, recs, anyd));
+              LMObj obj1;
+              configure_lm(obj1, g, lm1, s, g.add_data);
+              if (obj1.set_up(g.image) != Succeeded::yes)
+                herr = "set_up of the object that writes the cache files failed";
+              else
+                {
+                  shared_ptr<SynLM> lmB(new SynLM(g.pdi, recs2, anyd2));
+                  LMObj obj2;
+                  Sel sB = s;
+                  sB.use_frames = false;
+                  sB.frames.clear();
+                  sB.k = 1;
+                  sB.num_events = 0;
+                  configure_lm(obj2, g, lmB, sB, g.add_data);
+                  obj2.set_recompute_cache(false);
+                  obj2.set_use_subset_sensitivities(subsens);
+                  bool set_up_ok = false;
+                  try
+                    {
+                      set_up_ok = obj2.set_up(g.image) == Succeeded::yes;
+                    }
+                  catch (...)
+                    {
+                      if (subsens)
+                        throw;
+                    }
+                  if (!set_up_ok)
+                    herr = subsens ? "set_up with recompute_cache = false failed" : "skip"; // (unbalanced subsets need subset sensitivities)
+                  else if (subsens || s.nsub == 1)
+                    compute_all(second, obj2, g, s.nsub, false);
+                  else
+                    {
+                      // without subset sensitivities the class computes the gradient plus sensitivity only and refuses the rest
+                      for (int sub = 0; sub < s.nsub; ++sub)
+                        {
+                          shared_ptr<TargetT> out(g.image->get_empty_copy());
+                          obj2.compute_sub_gradient_without_penalty_plus_sensitivity(*out, *g.image, sub);
+                          second.gps.push_back(to_vec(*out));
+                          second.sens.push_back(to_vec(obj2.get_subset_sensitivity(sub)));
+                          shared_ptr<TargetT> xim(g.image->clone());
+                          std::copy(g.x.begin(), g.x.end(), xim->begin_all());
+                          out->fill(0.F);
+                          if (obj2.accumulate_sub_Hessian_times_input_without_penalty(*out, *g.image, *xim, sub) != Succeeded::yes)
+                            throw std::runtime_error("hessian");
+                          second.hess.push_back(to_vec(*out));
+                        }
+                      bool refused = false;
+                      try
+                        {
+                          shared_ptr<TargetT> out(g.image->get_empty_copy());
+                          obj2.compute_sub_gradient_without_penalty(*out, *g.image, 0);
+                        }
+                      catch (...)
+                        {
+                          refused = true;
+                        }
+                      if (!refused)
+                        herr = "compute_sub_gradient_without_penalty did not refuse use_subset_sensitivities = false with several subsets";
+                      second.ok = true;
+                    }
+                }
+            }
+          catch (std::exception& e)
+            {
+              herr = std::string("exception: ") + e.what();
+            }
+          catch (...)
+            {
+              herr = "exception";
+            }
+          clean_cache_dir();
+          if (herr == "skip")
+            g_stat["lmo_cache_reuse_total_sensitivity_refused_unbalanced"]++;
+          else
+            {
+              ++g_checks;
+              g_stat[subsens ? "lmo_cache_reuse" : "lmo_cache_reuse_with_total_sensitivity"]++;
+              if (!herr.empty())
+                oracle_fail("lm-objective, re-use of cache files: " + herr + " " + ctx);
+              else if (second.gps != lm.gps || second.hess != lm.hess)
+                oracle_fail("lm-objective, re-use of cache files (recompute_cache = false, other input stream): event sums differ from those of the object "
+                            "that wrote the files " + ctx);
+              else if (subsens || s.nsub == 1)
+                {
+                  if (!bitwise_equal(second, lm))
+                    oracle_fail("lm-objective, re-use of cache files (recompute_cache = false): results differ from those of the object that wrote the files "
+                                + ctx);
+                }
+              else
+                {
+                  // subset sensitivity = total sensitivity / number of subsets; sub-gradient = event sum - that
+                  std::vector<double> total(g.ix.size(), 0.), ttol(g.ix.size(), 0.);
+                  for (int sub = 0; sub < s.nsub; ++sub)
+                    for (int v = 0; v < g.ix.size(); ++v)
+                      {
+                        total[v] += TX[sub].sens[v];
+                        ttol[v] += TX[sub].tol_sens[v] + 4 * U24 * TX[sub].sens[v];
+                      }
+                  for (int sub = 0; sub < s.nsub; ++sub)
+                    {
+                      std::vector<double> es(g.ix.size()), et(g.ix.size()), eg(g.ix.size()), gt(g.ix.size());
+                      for (int v = 0; v < g.ix.size(); ++v)
+                        {
+                          es[v] = total[v] / s.nsub;
+                          et[v] = ttol[v] / s.nsub + 4 * U24 * es[v];
+                          const double ev = mode != 1 ? TX[sub].gps[v] : 0.;
+                          eg[v] = ev - es[v];
+                          gt[v] = TX[sub].tol_gps[v] + et[v] + 2 * U24 * (ev + es[v]);
+                        }
+                      int bad;
+                      ++g_checks;
+                      if ((bad = first_bad(second.sens[sub], es, et, 1.)) >= 0)
+                        {
+                          // the known defect: only the last subset's back projection survives
+                          std::vector<double> last(g.ix.size()), lt(g.ix.size());
+                          for (int v = 0; v < g.ix.size(); ++v)
+                            {
+                              last[v] = TX[s.nsub - 1].sens[v] / s.nsub;
+                              lt[v] = TX[s.nsub - 1].tol_sens[v] / s.nsub + 4 * U24 * last[v];
+                            }
+                          if (first_bad(second.sens[sub], last, lt, 1.) < 0)
+                            {
+                              g_stat["lmo_known_total_sensitivity_is_last_subset"]++;
+                              known_candidate("lmobj:use_subset_sensitivities-false:sensitivity-is-that-of-the-last-subset-only",
+                                              "PoissonLogLikelihoodWithLinearModelForMeanAndListModeDataWithProjMatrixByBin::add_subset_sensitivity OVERWRITES its "
+                                              "argument (BackProjectorByBin::get_output copies) instead of adding to it, while "
+                                              "PoissonLogLikelihoodWithLinearModelForMean::compute_sensitivities with use_subset_sensitivities = false lets all subsets "
+                                              "accumulate into one image: with several subsets the 'total' sensitivity is the back projection of the LAST subset only "
+                                              "and every subset sensitivity is that divided by the number of subsets (the projection-data class adds); "
+                                              + at("e.g. subset sensitivity and total/number of subsets", bad, second.sens[sub][bad], es[bad]) + " " + ctx);
+                            }
+                          else
+                            oracle_fail("lm-objective, use_subset_sensitivities = false: subset sensitivity != total sensitivity / number of subsets: "
+                                        + at("list-mode objective and textbook", bad, second.sens[sub][bad], es[bad]) + " " + ctx);
+                        }
+                    }
+                }
+            }
+        }
+
       // ---- (d) histories: change something on a set-up object, set_up again: must equal a fresh object (bitwise)
       if (ci % 2 == 0)
         {
@@ -2918,7 +3077,11 @@ run_family(vh::Rng& rng, bool thorough)
 //       projection data file and a parameter file, read through read_from_file<ListModeData> (SAFIRCListmodeInputFileFormat ->
 //       CListModeDataSAFIR<CListRecordSAFIR<CListEventDataSAFIR>>): the real bit-field decoder, get_next_record,
 //       save_get_position/set_get_position on the file; without crystal map (detector indices -> get_bin_for_det_pos_pair) and with a
-//       crystal map file written from the scanner's own detector map (coordinates -> LOR -> ProjDataInfo::get_bin).
+//       crystal map file written from the scanner's own detector map (coordinates -> LOR -> ProjDataInfo::get_bin);
+//   (d) an ECAT8 32-bit list-mode FILE for the Siemens mMR (Interfile list-mode header parsed by InterfileListmodeHeaderSiemens, 32 bit
+//       words: sinogram offset + prompt bit / time tags), read through read_from_file<ListModeData> (CListModeDataECAT8_32bit,
+//       CListEventECAT8_32bit::get_detection_position: offset -> segment/axial/view/tangential -> detector pair), histogrammed into small
+//       templates (span 1/3, view mashing, 9..61 tangential positions).
 //   ops    : cfg tpl / stream (as decoded by the event class resp. the real file reader) / run
 //   oracle : (a) of family 1 (histogram == independent count with get_bin_for_det_pos_pair), batch sizes, frames add; the records the
 //            file reader delivers == the event list (times, prompt/delayed); the file's histograms == those of the synthetic stream.
@@ -3023,10 +3186,20 @@ run_family(vh::Rng& rng, bool thorough)
   for (int ci = 0; ci < ncases; ++ci)
     {
       Case cs;
-      const int variant = ci % 4; // 0: cylindrical, LOR only  1: blocks, synthetic  2: SAFIR file  3: SAFIR file + crystal map
+      // 0: cylindrical, LOR only  1: blocks, synthetic  2: SAFIR file  3: SAFIR file + crystal map  4: ECAT8 32-bit file (Siemens mMR)
+      const int variant = ci % 16 == 7 ? 4 : ci % 4;
       int N = 8, R = 1, max_tof = -1;
       int lm_kind = 1;
-      if (variant == 0)
+      int ecat_maxrd = 1;
+      if (variant == 4)
+        {
+          cs.scanner.reset(Scanner::get_scanner_from_name("Siemens mMR"));
+          N = cs.scanner->get_num_detectors_per_ring(); // 504
+          R = cs.scanner->get_num_rings();              // 64
+          ecat_maxrd = rng.range(0, 2);
+          lm_kind = 0;
+        }
+      else if (variant == 0)
         {
           static const int Ns[] = { 8, 12, 16, 20 };
           N = Ns[rng.range(0, 3)];
@@ -3073,13 +3246,24 @@ run_family(vh::Rng& rng, bool thorough)
               marks.push_back(now);
               cs.recs.push_back(r);
               now += rng.range(0, 9) == 0 ? 0 : rng.range(1, 120);
-              if (variant >= 2 && rng.range(0, 30) == 0)
+              if ((variant == 2 || variant == 3) && rng.range(0, 30) == 0)
                 now += 5000000000L; // beyond 32 bits: the time field has 48
               continue;
             }
           r.prompt = rng.range(0, 3) != 0;
           any_delayed = any_delayed || !r.prompt;
           r.d1 = rng.range(0, N - 1);
+          if (variant == 4)
+            {
+              // the 32-bit format addresses a bin of the sinogram of the header: ring difference <= maximum ring difference,
+              // inside the fan of 344 bins (here: near the centre, so that small templates see the events)
+              r.d2 = (r.d1 + N / 2 + rng.range(-40, 40) + N) % N;
+              r.r1 = rng.range(0, R - 1);
+              r.r2 = std::min(R - 1, std::max(0, r.r1 + rng.range(-ecat_maxrd, ecat_maxrd)));
+              r.tp = 0;
+              cs.recs.push_back(r);
+              continue;
+            }
           do
             r.d2 = rng.range(0, N - 1);
           while (r.d2 == r.d1);
@@ -3088,8 +3272,10 @@ run_family(vh::Rng& rng, bool thorough)
           r.tp = rng.range(-tp_half, tp_half);
           cs.recs.push_back(r);
         }
-      cs.has_delayeds = any_delayed;
+      cs.has_delayeds = any_delayed || variant == 4;
       const long t_end = now;
+      if (cs.recs.empty())
+        continue;
 
       // ---- files (variants 2, 3) and the geometry of the list-mode data
       std::vector<std::string> files;
@@ -3098,7 +3284,71 @@ run_family(vh::Rng& rng, bool thorough)
       bool ok = true;
       try
         {
-          if (variant >= 2)
+          if (variant == 4)
+            {
+              // ECAT8 32-bit list mode: Interfile header (InterfileListmodeHeaderSiemens) + 32 bit words
+              //   event: offset:30 (((TOF bin * sinograms + z) * views + view) * projections + tangential index; z runs over the
+              //          segments 0, -1, +1, ...), bit 30 = 1 for a prompt, bit 31 = 0;   time: ms:29, bits 29-30 = 0, bit 31 = 1
+              const std::string base = dir + "/ecat" + std::to_string(ci);
+              const int nviews = N / 2, nproj = cs.scanner->get_max_num_non_arccorrected_bins();
+              {
+                std::ofstream h((base + ".l.hdr").c_str());
+                files.push_back(base + ".l.hdr");
+                h << "!INTERFILE:=\n!originating system:=2008\n%SMS-MI header name space:=PETLINK bin address\n%SMS-MI version number:=3.4\n\n"
+                     "!GENERAL DATA:=\n!data offset in bytes:=0\nname of data file:=ecat"
+                  << ci
+                  << ".l\n\n!GENERAL IMAGE DATA:=\n!type of data:=PET\n%study date (yyyy:mm:dd):=2017:03:27\n"
+                     "%study time (hh:mm:ss GMT+00:00):=17:00:35\nPET data type:=Emission\ndata format:=CoincidenceList\n"
+                     "number of energy windows:=1\n%energy window lower level (keV) [1]:=430\n%energy window upper level (keV) [1]:=610\n\n"
+                     "!PET STUDY (Emission data):=\nPET scanner type:=cylindrical\nnumber of rings:=64\n%number of TOF time bins:=1\n"
+                     "%TOF mashing factor:=1\n\n!IMAGE DATA DESCRIPTION:=\nimage duration (sec):=900\n\n%COINCIDENCE LIST DATA:=\n"
+                     "%LM event and tag words format (bits):=32\n%axial compression:=1\n%maximum ring difference:="
+                  << ecat_maxrd << "\n%number of projections:=" << nproj << "\n%number of views:=" << nviews
+                  << "\n%number of segments:=" << 2 * ecat_maxrd + 1 << "\n%segment table:={" << R;
+                for (int sgm = 1; sgm <= ecat_maxrd; ++sgm)
+                  h << "," << R - sgm << "," << R - sgm;
+                h << "}\n";
+              }
+              shared_ptr<ProjDataInfo> enc_pdi = vh::make_pdi(cs.scanner, 1, ecat_maxrd, nviews, nproj, false, 0);
+              const ProjDataInfoCylindricalNoArcCorr& enc = dynamic_cast<const ProjDataInfoCylindricalNoArcCorr&>(*enc_pdi);
+              std::ofstream f((base + ".l").c_str(), std::ios::binary);
+              files.push_back(base + ".l");
+              std::vector<Rec> kept;
+              for (auto& r : cs.recs)
+                {
+                  uint32_t w;
+                  if (r.is_time)
+                    w = (1u << 31) | static_cast<uint32_t>(r.ms & ((1u << 29) - 1));
+                  else
+                    {
+                      // the sinogram address of the detector pair in the geometry of the header
+                      Bin b;
+                      const DetectionPositionPair<> dp(DetectionPosition<>(r.d1, r.r1, 0), DetectionPosition<>(r.d2, r.r2, 0), 0);
+                      if (r.d1 == r.d2 || enc.get_bin_for_det_pos_pair(b, dp) != Succeeded::yes
+                          || b.tangential_pos_num() < enc.get_min_tangential_pos_num() || b.tangential_pos_num() > enc.get_max_tangential_pos_num())
+                        continue; // not an event of this format
+                      int z = b.axial_pos_num();
+                      for (int sgm = 0; sgm < std::abs(b.segment_num()); ++sgm)
+                        z += sgm == 0 ? R : 2 * (R - sgm);
+                      if (b.segment_num() > 0)
+                        z += R - b.segment_num();
+                      const uint32_t off = (static_cast<uint32_t>(z) * nviews + b.view_num()) * nproj + (b.tangential_pos_num() + nproj / 2);
+                      w = off | (r.prompt ? (1u << 30) : 0u);
+                    }
+                  kept.push_back(r);
+                  unsigned char bytes[4];
+                  for (int k = 0; k < 4; ++k)
+                    bytes[k] = static_cast<unsigned char>((w >> (8 * k)) & 0xff);
+                  f.write(reinterpret_cast<const char*>(bytes), 4);
+                }
+              f.close();
+              cs.recs = kept;
+              parname = base + ".l.hdr";
+              file_lm = read_from_file<ListModeData>(parname);
+              cs.scanner.reset(new Scanner(*file_lm->get_proj_data_info_sptr()->get_scanner_ptr()));
+              cs.lm_pdi = file_lm->get_proj_data_info_sptr()->create_shared_clone();
+            }
+          else if (variant >= 2)
             {
               const std::string base = dir + "/safir" + std::to_string(ci);
               shared_ptr<ExamInfo> ei(new ExamInfo);
@@ -3160,7 +3410,13 @@ run_family(vh::Rng& rng, bool thorough)
               views = N / 2 / mashes[rng.range(0, static_cast<int>(mashes.size()) - 1)];
             }
           const int num_tang = rng.range(0, 2) == 0 ? full_tang : rng.range(1, full_tang);
-          cs.tpl = vh::make_pdi(cs.scanner, span, max_delta, views, num_tang, false, 0);
+          if (variant == 4)
+            {
+              static const int mashes[] = { 1, 2, 3, 4, 6, 7, 9, 12 };
+              cs.tpl = vh::make_pdi(cs.scanner, rng.coin() ? 1 : 3, rng.range(1, 2), N / 2 / mashes[rng.range(0, 7)], rng.range(9, 61), false, 0);
+            }
+          else
+            cs.tpl = vh::make_pdi(cs.scanner, span, max_delta, views, num_tang, false, 0);
         }
       catch (std::exception& e)
         {
@@ -3182,8 +3438,10 @@ run_family(vh::Rng& rng, bool thorough)
       const ProjDataInfo& tpl = *cs.tpl;
       const int nseg = tpl.get_num_segments();
       g_stat["evk_cases"]++;
-      g_stat[variant == 0 ? "evk_cylindrical_lor_only" : (variant == 1 ? (lm_kind == 2 ? "evk_blocks_detector_pairs" : "evk_blocks_lor_only")
-                                                                       : (variant == 2 ? "evk_safir_file" : "evk_safir_file_with_crystal_map"))]++;
+      g_stat[variant == 0 ? "evk_cylindrical_lor_only"
+                          : (variant == 1 ? (lm_kind == 2 ? "evk_blocks_detector_pairs" : "evk_blocks_lor_only")
+                                          : (variant == 2 ? "evk_safir_file" : (variant == 3 ? "evk_safir_file_with_crystal_map" : "evk_ecat8_32bit_file")))]++;
+      const std::string fname = variant == 4 ? "ECAT8 32-bit file" : (variant == 2 ? "SAFIR file" : "SAFIR file with crystal map");
 
       // ---- the event class's bins against the detector-pair geometry; the file's records against the event list
       std::string stream;
@@ -3210,7 +3468,7 @@ run_family(vh::Rng& rng, bool thorough)
                 }
               same = same && !r.is_time && rec->is_event() && rec->event().is_prompt() == r.prompt;
               if (!r.is_time)
-                glue_check(rec->event(), tpl, r, variant == 2 ? "SAFIR file" : "SAFIR file with crystal map");
+                glue_check(rec->event(), tpl, r, fname);
               Bin bin;
               bin.set_bin_value(1.f);
               rec->event().get_bin(bin, tpl);
@@ -3223,13 +3481,13 @@ run_family(vh::Rng& rng, bool thorough)
             }
           ++g_checks;
           if (!same || k != cs.recs.size())
-            oracle_fail("SAFIR file: the records the reader delivers differ from the event list written (record " + std::to_string(k) + " of "
+            oracle_fail(fname + ": the records the reader delivers differ from the event list written (record " + std::to_string(k) + " of "
                         + std::to_string(cs.recs.size()) + ")");
           // reset(): the same records again
           ++g_checks;
           if (file_lm->reset() != Succeeded::yes || file_lm->get_next_record(*rec) != Succeeded::yes
               || rec->is_time() != cs.recs[0].is_time)
-            oracle_fail("SAFIR file: reset() does not go back to the first record");
+            oracle_fail(fname + ": reset() does not go back to the first record");
           stream = s.str();
           file_lm.reset();
         }
@@ -3255,7 +3513,7 @@ run_family(vh::Rng& rng, bool thorough)
       };
       RunCfg base;
       base.lm_kind = lm_kind;
-      base.lm_file = variant == 3 ? parname : std::string();
+      base.lm_file = variant >= 3 ? parname : std::string();
       base.lm_safir = safirname;
       base.in_memory = 2;
       const int sm = rng.range(0, 3);
@@ -3306,11 +3564,11 @@ run_family(vh::Rng& rng, bool thorough)
           RunCfg c = base;
           c.lm_file.clear();
           c.lm_safir.clear();
-          c.lm_kind = 2;
+          c.lm_kind = variant == 4 ? 0 : 2;
           const RunResult syn = run_impl(cs.lm_pdi, cs.tpl, cs.recs, cs.has_delayeds, c);
           ++g_checks;
           if (!ref.err && !same_frames(ref, syn))
-            oracle_fail("SAFIR file: histograms differ from those of the synthetic stream of the same events: " + run_line(c));
+            oracle_fail(fname + ": histograms differ from those of the synthetic stream of the same events: " + run_line(c));
           g_stat["evk_file_against_synthetic"]++;
         }
       if (base.frames.size() > 1 && !ref.err)
